@@ -281,13 +281,6 @@ fn inflate_bytes(data: &[u8]) -> Result<Vec<u8>> {
 }
 
 pub fn flate_decode(data: &[u8], params: &LZWFlateParams) -> Result<Vec<u8>> {
-
-    let predictor = params.predictor as usize;
-    let n_components = params.n_components as usize;
-    let columns = params.columns as usize;
-    let stride = columns * n_components;
-
-
     // First flate decode
     let decoded = {
         if let Ok(data) = inflate_bytes_zlib(data) {
@@ -299,46 +292,87 @@ pub fn flate_decode(data: &[u8], params: &LZWFlateParams) -> Result<Vec<u8>> {
             bail!("can't inflate");
         }
     };
-    // Then unfilter (PNG)
-    // For this, take the old out as input, and write output to out
+    // Then undo the predictor
+    apply_predictor(decoded, params)
+}
 
-    if predictor > 10 {
-        let inp = decoded; // input buffer
-        let rows = inp.len() / (stride+1);
-        
-        // output buffer
-        let mut out = vec![0; rows * stride];
-    
-        // Apply inverse predictor
-        let null_vec = vec![0; stride];
-        
-        let mut in_off = 0; // offset into input buffer
-        
-        let mut out_off = 0; // offset into output buffer
-        let mut last_out_off = 0; // last offset to output buffer
-        
-        while in_off + stride < inp.len() {
-            let predictor = PredictorType::from_u8(inp[in_off])?;
-            in_off += 1; // +1 because the first byte on each row is predictor
-            
-            let row_in = &inp[in_off .. in_off + stride];
-            let (prev_row, row_out) = if out_off == 0 {
-                (&null_vec[..], &mut out[out_off .. out_off+stride])
-            } else {
-                let (prev, curr) = out.split_at_mut(out_off);
-                (&prev[last_out_off ..], &mut curr[.. stride])
-            };
-            unfilter(predictor, n_components, prev_row, row_in, row_out);
-            
-            last_out_off = out_off;
-            
-            in_off += stride;
-            out_off += stride;
-        }
-        Ok(out)
-    } else {
-        Ok(decoded)
+/// Undo the PNG (10..=15) or TIFF (2) predictor described by `params`.
+fn apply_predictor(decoded: Vec<u8>, params: &LZWFlateParams) -> Result<Vec<u8>> {
+    let predictor = params.predictor;
+    if predictor != 2 && !(10 ..= 15).contains(&predictor) {
+        return Ok(decoded);
     }
+    let (colors, bpc, columns) = (params.n_components, params.bits_per_component, params.columns);
+    if colors < 1 || columns < 1 || !matches!(bpc, 1 | 2 | 4 | 8 | 16) {
+        bail!("invalid predictor parameters (Colors={}, BitsPerComponent={}, Columns={})", colors, bpc, columns);
+    }
+    let (colors, bpc, columns) = (colors as usize, bpc as usize, columns as usize);
+    let bits_per_pixel = colors * bpc;
+    // bytes per complete pixel (rounded up) and bytes per row
+    let bpp = (bits_per_pixel + 7) / 8;
+    let stride = (columns.checked_mul(bits_per_pixel).ok_or(PdfError::Invalid)?.checked_add(7).ok_or(PdfError::Invalid)?) / 8;
+
+    if predictor == 2 {
+        let mut out = decoded;
+        for row in out.chunks_exact_mut(stride) {
+            match bpc {
+                8 => for i in colors .. stride {
+                    row[i] = row[i].wrapping_add(row[i - colors]);
+                }
+                16 => for i in colors .. stride / 2 {
+                    let prev = u16::from_be_bytes([row[2 * (i - colors)], row[2 * (i - colors) + 1]]);
+                    let cur = u16::from_be_bytes([row[2 * i], row[2 * i + 1]]);
+                    row[2 * i .. 2 * i + 2].copy_from_slice(&cur.wrapping_add(prev).to_be_bytes());
+                }
+                _ => {
+                    let mask = (1u8 << bpc) - 1;
+                    let get = |row: &[u8], k: usize| (row[k * bpc / 8] >> (8 - bpc - (k * bpc) % 8)) & mask;
+                    for k in colors .. columns * colors {
+                        let v = get(row, k).wrapping_add(get(row, k - colors)) & mask;
+                        let shift = 8 - bpc - (k * bpc) % 8;
+                        let byte = &mut row[k * bpc / 8];
+                        *byte = (*byte & !(mask << shift)) | (v << shift);
+                    }
+                }
+            }
+        }
+        return Ok(out);
+    }
+
+    // PNG predictors: each row is preceded by a byte selecting the filter of that row
+    let inp = decoded; // input buffer
+    let rows = inp.len() / (stride+1);
+
+    // output buffer
+    let mut out = vec![0; rows * stride];
+
+    // Apply inverse predictor
+    let null_vec = vec![0; stride];
+
+    let mut in_off = 0; // offset into input buffer
+
+    let mut out_off = 0; // offset into output buffer
+    let mut last_out_off = 0; // last offset to output buffer
+
+    while in_off + stride < inp.len() {
+        let predictor = PredictorType::from_u8(inp[in_off])?;
+        in_off += 1; // +1 because the first byte on each row is predictor
+
+        let row_in = &inp[in_off .. in_off + stride];
+        let (prev_row, row_out) = if out_off == 0 {
+            (&null_vec[..], &mut out[out_off .. out_off+stride])
+        } else {
+            let (prev, curr) = out.split_at_mut(out_off);
+            (&prev[last_out_off ..], &mut curr[.. stride])
+        };
+        unfilter(predictor, bpp, prev_row, row_in, row_out);
+
+        last_out_off = out_off;
+
+        in_off += stride;
+        out_off += stride;
+    }
+    Ok(out)
 }
 fn flate_encode(data: &[u8]) -> Vec<u8> {
     use libflate::zlib::Encoder;
@@ -367,7 +401,7 @@ pub fn lzw_decode(data: &[u8], params: &LZWFlateParams) -> Result<Vec<u8>> {
     decoder
         .into_stream(&mut out)
         .decode_all(data).status?;
-    Ok(out)
+    apply_predictor(out, params)
 }
 fn lzw_encode(data: &[u8], params: &LZWFlateParams) -> Result<Vec<u8>> {
     use weezl::{BitOrder, encode::Encoder};
